@@ -16,7 +16,11 @@
 #define timerfd_settime verif_timerfd_settime
 #define epoll_wait verif_epoll_wait
 #define janet_continue_signal verif_continue_signal
+#define read verif_read
+#define write verif_write
 #include "ev.c"
+#undef read
+#undef write
 #undef clock_gettime
 #undef timerfd_settime
 #undef epoll_wait
@@ -30,6 +34,8 @@
 #include <poll.h>
 
 extern int epoll_wait(int, struct epoll_event *, int, int);
+extern ssize_t read(int, void *, size_t);
+extern ssize_t write(int, const void *, size_t);
 extern int clock_gettime(clockid_t, struct timespec *);
 JanetSignal janet_continue_signal(JanetFiber *fiber, Janet in, Janet *out, JanetSignal sig);
 
@@ -42,6 +48,7 @@ static int late_wake = 0;         /* the loop wakes up this many ms after the ar
 static FILE *lg;                  /* log stream (memory) */
 static char *lgbuf; static size_t lgsize;
 static const int64_t T0 = 1000;
+static pthread_t main_thread;
 
 /* ---- names for fibers / channels / streams --------------------------------------------------- */
 #define MAXN 256
@@ -86,6 +93,57 @@ static const char *reprs(Janet x) {
 }
 static const char *fname(JanetFiber *f) { const char *n = name_of(f); return n ? n : "?"; }
 
+/* ---- kernel interactions of ev.c, logged in order: they are the INPUT of the Lean model's stream / process part ------- */
+static const char *stream_name_of_fd(int fd) {
+    for (int i = 0; i < nm_n; i++) {
+        if (nm_str[i][0] == 'p' && ((const JanetStream *) nm_ptr[i])->handle == fd) return nm_str[i];
+    }
+    return "?";
+}
+static void log_bytes(const char *tag, int fd, size_t limit, ssize_t r, const unsigned char *data, int err) {
+    fprintf(lg, "K %s %s %zu ", tag, stream_name_of_fd(fd), limit);
+    if (r < 0) {
+        if (err == EAGAIN || err == EWOULDBLOCK) fprintf(lg, "again\n");
+        else { fprintf(lg, "err:"); for (const char *m = strerror(err); *m; m++) fputc(*m == ' ' ? '_' : *m, lg); fprintf(lg, "\n"); }
+    } else if (r <= 40) {
+        fprintf(lg, "%zd:", r);
+        for (ssize_t i = 0; i < r; i++) fputc(data[i] == ' ' ? '_' : data[i], lg);
+        fprintf(lg, "\n");
+    } else {
+        fprintf(lg, "%zd:%c\n", r, data[0]);
+    }
+}
+ssize_t verif_read(int fd, void *buf, size_t n) {
+    ssize_t r;
+    if (fd == janet_vm.selfpipe[0]) return read(fd, buf, n);
+    do { r = read(fd, buf, n); } while (r == -1 && errno == EINTR);
+    int e = errno;
+    log_bytes("rd", fd, n, r, buf, e);
+    errno = e;
+    return r;
+}
+ssize_t verif_write(int fd, const void *buf, size_t n) {
+    ssize_t r;
+    if (fd == janet_vm.selfpipe[1] || pthread_self() != main_thread) return write(fd, buf, n);
+    do { r = write(fd, buf, n); } while (r == -1 && errno == EINTR);
+    int e = errno;
+    log_bytes("wr", fd, n, r, buf, e);
+    errno = e;
+    return r;
+}
+static void log_poll(struct epoll_event *events, int n) {
+    fprintf(lg, "K poll %d %lld\n", n, (long long)(vnow - T0));
+    for (int i = 0; i < n; i++) {
+        void *p = events[i].data.ptr;
+        if (p == (void *) janet_vm.selfpipe) { fprintf(lg, "K self\n"); continue; }
+        if (p == (void *) &janet_vm.timerfd) { fprintf(lg, "K timer\n"); continue; }
+        const char *nm = name_of(p);
+        int m = events[i].events;
+        fprintf(lg, "K ev %s %s%s%s%s-\n", nm ? nm : "?", (m & EPOLLIN) ? "r" : "", (m & EPOLLOUT) ? "w" : "",
+                (m & EPOLLERR) ? "e" : "", (m & EPOLLHUP) ? "h" : "");
+    }
+}
+
 /* ---- virtual time ------------------------------------------------------------------------------ */
 int verif_clock_gettime(clockid_t id, struct timespec *ts) {
     (void) id;
@@ -116,7 +174,7 @@ int verif_epoll_wait(int epfd, struct epoll_event *events, int max, int timeout)
     (void) timeout;
     int n;
     do { n = epoll_wait(epfd, events, max, 0); } while (n == -1 && errno == EINTR);
-    if (n != 0) return n;
+    if (n != 0) { if (n > 0) log_poll(events, n); return n; }
     if (timer_armed) {
         if (early_wake && !early_done && timer_deadline - 1 > vnow) {
             early_done = 1; vnow = timer_deadline - 1;      /* spurious early wake-up: loop must re-check */
@@ -130,10 +188,10 @@ int verif_epoll_wait(int epfd, struct epoll_event *events, int max, int timeout)
     }
     for (int i = 0; i < 5000 && nthreads() > 1; i++) {
         do { n = epoll_wait(epfd, events, max, 1); } while (n == -1 && errno == EINTR);
-        if (n != 0) return n;
+        if (n != 0) { if (n > 0) log_poll(events, n); return n; }
     }
     do { n = epoll_wait(epfd, events, max, 0); } while (n == -1 && errno == EINTR);
-    if (n != 0) return n;
+    if (n != 0) { if (n > 0) log_poll(events, n); return n; }
     fprintf(lg, "D %lld DEADLOCK\n", (long long)(vnow - T0));
     finish("deadlock");
     return 0;
@@ -246,6 +304,7 @@ static void run_scenario(const char *id, const char *src) {
     lg = open_memstream(&lgbuf, &lgsize);
     signal(SIGALRM, on_signal); signal(SIGABRT, on_signal); signal(SIGSEGV, on_signal);
     alarm(30);
+    main_thread = pthread_self();
     janet_init();
     JanetTable *env = janet_core_env(NULL);
     janet_cfuns(env, NULL, cfuns);
